@@ -59,7 +59,7 @@ func isStringField(f string) bool {
 
 // obs performs the observation sweep and emits one "obs" event.
 func (r *Runner) obs(afterFail, light bool) {
-	e := ev{"ev": "obs", "after_fail": afterFail}
+	e := ev{"ev": "obs", "after_fail": afterFail, "async": r.cfg.Async}
 	proto := r.proto()
 	r.recs, r.recIdx = []Vals{}, map[string]int{}
 
@@ -140,6 +140,8 @@ func (r *Runner) obs(afterFail, light bool) {
 				for _, pat := range sweepPatterns {
 					qs = append(qs, r.oneQuery([]Cmp{{F: f, Op: "~=", Pat: pat}}))
 				}
+				// a pattern that does not compile: an error, never objects (C12, C19)
+				qs = append(qs, r.oneQuery([]Cmp{{F: f, Op: "~!", Pat: "a("}}))
 			}
 		}
 		for _, q := range r.xqs {
@@ -154,6 +156,7 @@ func (r *Runner) obs(afterFail, light bool) {
 		e["q"] = qs
 	}
 	e["control"] = classify(r.db.Control())
+	e["dir"] = r.walk()
 	e["recs"] = r.recs
 	r.emit(e)
 }
